@@ -558,3 +558,42 @@ type vWNames struct {
 func H_C02_field_name_classes() {
 	vRun("C02 field names of every class", &vWNames{Épée: vStr("E"), Ωmega: vndInt("O"), A: vStr("A")})
 }
+
+// the same type three times in a row, with what each call brings along varying (nothing, a rule set, its own
+// functions for a known and for an otherwise unknown name): rule lists with empty items, repeated rules and an
+// unknown rule; every call is compared with the reference on its own arguments
+type vWSeq struct {
+	E string `valid:"r1,,r2"`
+	F string `valid:",nosuch,r1"`
+	I string `valid:"required,,r1,r1"`
+	P string `valid:"phone,r9"`
+}
+
+func H_C02_same_type_three_calls() {
+	known := vGlobalRules()
+	vUNoFail = true
+	for i := 0; i < 3; i++ {
+		o := &vWSeq{E: vStr("E" + vNum(i)), F: "f", I: vStr("I" + vNum(i)), P: "x"}
+		vULog = nil
+		r := vNewRef()
+		r.global = known
+		r.globalTag = map[string]string{"r1": "r1", "r2": "r2", "r3": "r3"}
+		r.realBuiltin = map[string]string{VPhone: ExplainEn + " it is not phone"}
+		var err error
+		switch vndChoice("with"+vNum(i), 3) {
+		case 0:
+			err = Struct(o)
+		case 1:
+			rm := RM{"E": "r2,,r1", "F": ""}
+			err = Struct(o, vCopyRM(rm))
+			r.unscoped = rm
+		default:
+			err = StructForFns(o, nil, Name2FnMap{"phone": vURule("L-phone"), "r9": vURule("L-r9")})
+			r.local = map[string]bool{"phone": true, "r9": true}
+			r.localTag = map[string]string{"phone": "L-phone", "r9": "L-r9"}
+		}
+		r.top(o)
+		vCheckAgainstRef("C02 same type, call "+vNum(i), err, r)
+	}
+	vReach("end")
+}
